@@ -33,10 +33,10 @@ def usb_checksum(packet19: bytes) -> int:
     return sum(packet19[2:19]) & 0xFF
 
 
-def usb_packet(ident: int, data: bytes) -> bytes:
+def usb_packet(ident: int, data: bytes, pad: int = 0x00) -> bytes:
     assert len(data) <= 8
     p = bytes([0xAA, 0x55, 0x01, 0x02, 0x01]) + ident.to_bytes(4, "little") + bytes([len(data)]) \
-        + bytes(data) + bytes(8 - len(data)) + b"\x00"
+        + bytes(data) + bytes([pad]) * (8 - len(data)) + b"\x00"
     return p + bytes([usb_checksum(p)])
 
 
